@@ -147,10 +147,22 @@ def calls(C):
         add(f"p2d({c1},None,{c})", lambda c=c: path_to_dict(P[c1], None, c), group=f"p2d-{c1}-{c}")
     add(f"p2d({c2},config={c2})", lambda: path_to_dict(P[c2], config=c2))
     add("unf(U)", lambda: unfold_search(U), group="unf-default")
-    add("unf(U,extr=False)", lambda: unfold_search(U, do_extrapolate=False), group="unf-default")
-    add("unf(U,False,False)", lambda: unfold_search(U, False, False), group="unf-default")
-    add("unf(U,extr=True)", lambda: unfold_search(U, do_extrapolate=True), group="unf-extr")
-    add("unf(U,False,True)", lambda: unfold_search(U, False, True), group="unf-extr")
+    # every way to bind the two flags of unfold_search (same value on different parameters, positional / keyword / mixed)
+    for u in (None, False, True):
+        for e in (None, False, True):
+            g = "unf-" + ("uniq" if u else "") + ("extr" if e else "") if (u or e) else "unf-default"
+            forms = []
+            if u is not None and e is not None:
+                forms = [("pos", lambda u=u, e=e: unfold_search(U, u, e)), ("kw", lambda u=u, e=e: unfold_search(U, do_uniquify=u, do_extrapolate=e)),
+                         ("mix", lambda u=u, e=e: unfold_search(U, u, do_extrapolate=e)), ("kwrev", lambda u=u, e=e: unfold_search(U, do_extrapolate=e, do_uniquify=u))]
+            elif u is not None:
+                forms = [("pos", lambda u=u: unfold_search(U, u)), ("kw", lambda u=u: unfold_search(U, do_uniquify=u))]
+            elif e is not None:
+                forms = [("kw", lambda e=e: unfold_search(U, do_extrapolate=e))]
+            for fn, f in forms:
+                name = f"unf(U|{fn}|uniq={u},extr={e})"
+                if name not in out:
+                    add(name, f, group=g)
     add("unf(S)", lambda: unfold_search(SEARCH), group="unfS-default")
     add("unf(S,uniq=False)", lambda: unfold_search(SEARCH, do_uniquify=False), group="unfS-default")
     add("unf(S,uniq=True)", lambda: unfold_search(SEARCH, do_uniquify=True), group="unfS-uniq")
